@@ -273,7 +273,9 @@ class Model:
         if not (self.req or (cur is not None and self.mf(cur))):
             cur = None
         if cur is None:
-            if (self.running or (self.cur is not None and self.cur != self.default)) and not done_called:
+            # (a regular state that was selected by an explicit request after done() and is now dropped without ever
+            # having run is not a "stop": done() is only invoked when regular states were running)
+            if self.running and not done_called:
                 self.done()
                 done_called = True
             if self.default is not None:
@@ -311,6 +313,9 @@ class Model:
                 self.done()
                 self.enter(a[1])
                 self._nested(now, act)
+            elif a[0] == "eng":
+                # engage() from inside a state function: the request is consumed by this very iteration
+                self.engage()
         self.req = False
 
     def _nested(self, now, act):
@@ -371,10 +376,10 @@ class Ctx:
         self.nest_limit = 2
         self.main = None
         regs = [s["name"] for s in sh["states"] if s["kind"] != "default"]
-        self.menu = [("none",)] + [("ns", n) for n in regs] + [("nsn", n) for n in regs] + [("done",)]
-        if sh["auto"]:
-            # an autonomous mode may end itself and still ask for a transition in the same call
-            self.menu += [("done+ns", n) for n in regs] + [("done+nsn", n) for n in regs]
+        self.menu = [("none",)] + [("ns", n) for n in regs] + [("nsn", n) for n in regs] + [("done",), ("eng",)]
+        # a state may end the run and still ask for a transition in the same call (the explicitly requested state stays
+        # selected: it is where the next engage() starts)
+        self.menu += [("done+ns", n) for n in regs] + [("done+nsn", n) for n in regs]
         self.kinds = {s["name"]: s["kind"] for s in sh["states"]}
 
     def on_done(self, sm):
@@ -413,6 +418,8 @@ class Ctx:
                 sm.next_state_now(a[1])
             finally:
                 self.depth -= 1
+        elif a[0] == "eng":
+            sm.engage()
 
 
 def op_menu(sh, period_open=None, seen_enable=None):
@@ -758,6 +765,7 @@ def monitors(sh, trace):
     idle_confirmed = False  # an un-engaged iteration ran no must_finish state -> machine has stopped
     last_call = None  # (name, state_tm, tm) of the latest call, for monotonicity
     stopped = True  # no regular state may run until engage
+    sel_after_done = False  # a state called done() and then asked for a transition: that state stays selected while stopped
     for i, st in enumerate(trace):
         op = st["op"]
         ev = st["real"]["events"]
@@ -768,8 +776,10 @@ def monitors(sh, trace):
         if op[0] == "engage":
             engaged_since = True
             last_stop_after_engage = False
+            sel_after_done = False
             continue
         if op[0] in ("done", "on_disable"):
+            sel_after_done = False
             last_stop_after_engage = True
             # C04: explicit stop
             if not dones:
@@ -782,7 +792,7 @@ def monitors(sh, trace):
             continue
         acts = st["acts"]
         n_nsn = sum(1 for a in acts if a[0] == "nsn")
-        inner_done = any(a[0] == "done" for a in acts)
+        inner_done = any(a[0].startswith("done") for a in acts)
         regs = [c for c in calls if cls(c[1]) == "regular"]
         mfs = [c for c in calls if cls(c[1]) == "mf"]
         if not engaged_since:
@@ -795,7 +805,7 @@ def monitors(sh, trace):
             if not mfs:
                 idle_confirmed = True
                 # C04: the machine is stopped now
-                if st["real"]["is_executing"] or st["real"]["current_state"] not in ("",) and cls(st["real"]["current_state"]) != "default":
+                if st["real"]["is_executing"] or (not sel_after_done and st["real"]["current_state"] not in ("",) and cls(st["real"]["current_state"]) != "default"):
                     out.append(("C04", "reset-on-unengaged-stop", f"step {i}: un-engaged iteration ran no must_finish state but is_executing={st['real']['is_executing']} current_state={st['real']['current_state']!r}"))
         else:
             idle_confirmed = False
@@ -812,11 +822,13 @@ def monitors(sh, trace):
             if "tm" in kw and F(kw["tm"]) < 0 and cls(c[1]) != "default":
                 out.append(("C03", "tm-nonneg", f"step {i}: {c[1]} got tm={kw['tm']}"))
         # C04: while regular states are running is_executing is True and current_state names a state
-        if calls and cls(calls[-1][1]) != "default" and not inner_done and st["real"]["current_state"] != "":
+        if calls and cls(calls[-1][1]) != "default" and not inner_done and not sel_after_done and st["real"]["current_state"] != "":
             if not st["real"]["is_executing"]:
                 out.append(("C04", "executing-while-running", f"step {i}: {calls[-1][1]} ran and the machine did not stop, but is_executing is False"))
         engaged_since = False
         last_stop_after_engage = False
+        if any(a[0].startswith("done+") for a in acts):
+            sel_after_done = True
     out += chain_monitor(sh, trace)
     return out
 
@@ -1169,7 +1181,7 @@ def run_check(pid, tier, seed, shapes, nops, maxdev, bfs_depth, rule_extra="", p
     rule = (
         "for each generated machine shape: every sequence of `flat_ops` external operations (engage variants, done, on_disable, "
         "duration-topic edits, execute after a clock advance of 0/1/2/3/long ticks) with at most `flat_deviation_bound` non-trivial in-state "
-        "actions (next_state / next_state_now / done, asked at every state-function invocation), run on a fresh real machine and the "
+        "actions (next_state / next_state_now / done / engage, asked at every state-function invocation), run on a fresh real machine and the "
         "reference model in lock step (prefix-replay DFS); then breadth-first search with canonical state merging to `bfs_depth` operations "
         "with an unbounded number of in-state actions (one per state-function call; the target of a next_state_now is passive there), and a second, deeper BFS (`timing_bfs`) over the clock / engage / done / duration-edit operations with passive states. states = distinct canonical states, transitions = operations executed and compared, "
         "distinct outcome = distinct observed trace (calls with arguments, is_executing, current_state per step). " + rule_extra
@@ -1204,7 +1216,7 @@ def pytest_source(rp, pid="", sig=""):
     L.append("TICK_US = 15625  # 1/64 s: exact in binary floating point")
     L.append("CALLS = []")
     L.append(f"SCRIPT = {script!r}  # what each state-function invocation does, in invocation order\n")
-    L.append("class _Ctx:\n    def on_done(self, sm):\n        CALLS.append(('done',))\n    def on_call(self, sm, name, tag, kw):\n        CALLS.append((name, dict(kw)))\n        act = SCRIPT.pop(0) if SCRIPT else ['none']\n        if act[0] == 'ns':\n            sm.next_state(act[1])\n        elif act[0] == 'nsn':\n            sm.next_state_now(act[1])\n        elif act[0] == 'done':\n            sm.done()\n        elif act[0] == 'done+ns':\n            sm.done()\n            sm.next_state(act[1])\n        elif act[0] == 'done+nsn':\n            sm.done()\n            sm.next_state_now(act[1])\n\n_ctx = _Ctx()\n")
+    L.append("class _Ctx:\n    def on_done(self, sm):\n        CALLS.append(('done',))\n    def on_call(self, sm, name, tag, kw):\n        CALLS.append((name, dict(kw)))\n        act = SCRIPT.pop(0) if SCRIPT else ['none']\n        if act[0] == 'ns':\n            sm.next_state(act[1])\n        elif act[0] == 'nsn':\n            sm.next_state_now(act[1])\n        elif act[0] == 'done':\n            sm.done()\n        elif act[0] == 'done+ns':\n            sm.done()\n            sm.next_state(act[1])\n        elif act[0] == 'done+nsn':\n            sm.done()\n            sm.next_state_now(act[1])\n        elif act[0] == 'eng':\n            sm.engage()\n\n_ctx = _Ctx()\n")
     L.append(rp.get("source") or class_source(sh))
     L.append("\ndef test_replay():")
     L.append("    hs.pauseTiming()\n    rem = wpilib.RobotController.getFPGATime() % TICK_US\n    if rem:\n        hs.stepTimingAsync(TICK_US - rem)")
